@@ -8,6 +8,7 @@ import (
 	"fmt"
 	"io"
 	"math"
+	"os"
 	"os/exec"
 	"strconv"
 	"strings"
@@ -31,16 +32,17 @@ type level struct {
 }
 
 type Solver struct {
-	kind    string
-	cmd     *exec.Cmd
-	in      io.WriteCloser
-	out     *bufio.Reader
-	stack   []*level
-	declLvl map[string]int // symbol -> level index where declared
-	sorts   map[string]Sort
-	names   map[*Term]string
-	nextID  int
-	timeout int // ms
+	kind        string
+	cmd         *exec.Cmd
+	in          io.WriteCloser
+	out         *bufio.Reader
+	stack       []*level
+	declLvl     map[string]int // symbol -> level index where declared
+	sorts       map[string]Sort
+	names       map[*Term]string
+	nextID      int
+	timeout     int // ms
+	incremental bool
 
 	nSat, nUnsat, nUnknown int
 	solveTime              time.Duration
@@ -82,6 +84,7 @@ func NewSolver(kind string, timeoutMs int, seed int) (*Solver, error) {
 		s.send(fmt.Sprintf("(set-option :random-seed %d)\n", seed))
 	}
 	s.send("(set-option :produce-models true)\n")
+	s.incremental = os.Getenv("VERIF_INCREMENTAL") != ""
 	return s, nil
 }
 
@@ -188,15 +191,62 @@ func (s *Solver) align(pc []*Term) {
 }
 
 // Check decides pc ∧ extra. If wantModel and sat, returns values of all declared symbols.
+// Default mode re-sends the whole query after (reset): z3 then uses its tactic pipeline
+// (bit-blasting for FP/BV), which is far stronger than the incremental core on FP queries.
 func (s *Solver) Check(pc []*Term, extra *Term, wantModel bool) (Res, Model) {
 	start := time.Now()
 	defer func() { s.solveTime += time.Since(start) }()
-	s.align(pc)
-	base := len(s.stack)
-	if extra != nil {
-		s.pushAssert(extra)
+	if s.incremental {
+		return s.checkIncremental(pc, extra, wantModel)
 	}
-	s.send("(check-sat)\n")
+	var decls, body strings.Builder
+	n := 0
+	s.declLvl = map[string]int{}
+	p := &smtPrinter{names: map[*Term]string{}, next: &n, out: &body}
+	p.decl = func(name string, so Sort) {
+		if _, ok := s.declLvl[name]; ok {
+			return
+		}
+		s.declLvl[name] = 0
+		s.sorts[name] = so
+		fmt.Fprintf(&decls, "(declare-const %s %s)\n", name, so.smt())
+	}
+	emit := func(t *Term) {
+		e := p.print(t)
+		body.WriteString("(assert " + e + ")\n")
+	}
+	for _, t := range pc {
+		emit(t)
+	}
+	if extra != nil {
+		emit(extra)
+	}
+	hdr := "(reset)\n(set-option :produce-models true)\n"
+	if s.kind == "cvc5" {
+		hdr = "(reset)\n(set-logic ALL)\n(set-option :produce-models true)\n"
+	}
+	s.send(hdr + decls.String() + body.String() + "(check-sat)\n")
+	res := s.readVerdict()
+	var m Model
+	if res == Sat && wantModel {
+		m = s.getModel()
+	}
+	s.count(res)
+	return res, m
+}
+
+func (s *Solver) count(res Res) {
+	switch res {
+	case Sat:
+		s.nSat++
+	case Unsat:
+		s.nUnsat++
+	default:
+		s.nUnknown++
+	}
+}
+
+func (s *Solver) readVerdict() Res {
 	var res Res
 	sawErr := false
 	for {
@@ -208,8 +258,7 @@ func (s *Solver) Check(pc []*Term, extra *Term, wantModel bool) (Res, Model) {
 			s.errors++
 			sawErr = true
 			if strings.Contains(line, "solver died") {
-				res = Unknown
-				break
+				return Unknown
 			}
 			continue
 		}
@@ -227,18 +276,22 @@ func (s *Solver) Check(pc []*Term, extra *Term, wantModel bool) (Res, Model) {
 	if sawErr {
 		res = Unknown
 	}
+	return res
+}
+
+func (s *Solver) checkIncremental(pc []*Term, extra *Term, wantModel bool) (Res, Model) {
+	s.align(pc)
+	base := len(s.stack)
+	if extra != nil {
+		s.pushAssert(extra)
+	}
+	s.send("(check-sat)\n")
+	res := s.readVerdict()
 	var m Model
 	if res == Sat && wantModel {
 		m = s.getModel()
 	}
-	switch res {
-	case Sat:
-		s.nSat++
-	case Unsat:
-		s.nUnsat++
-	default:
-		s.nUnknown++
-	}
+	s.count(res)
 	s.popTo(base)
 	return res, m
 }
@@ -388,4 +441,68 @@ func parseValue(x *sexp, so Sort) (uint64, bool) {
 		}
 		return 0, false
 	}
+}
+
+// standaloneQuery renders pc ∧ extra as a self-contained SMT-LIB2 script.
+func standaloneQuery(pc []*Term, extra *Term, names []string) string {
+	var decls, defs, asserts strings.Builder
+	n := 0
+	seen := map[string]bool{}
+	p := &smtPrinter{names: map[*Term]string{}, next: &n, out: &defs}
+	p.decl = func(name string, so Sort) {
+		if seen[name] {
+			return
+		}
+		seen[name] = true
+		fmt.Fprintf(&decls, "(declare-const %s %s)\n", name, so.smt())
+	}
+	all := append([]*Term{}, pc...)
+	if extra != nil {
+		all = append(all, extra)
+	}
+	for _, t := range all {
+		body := p.print(t)
+		// definitions must precede their use: flush defs emitted so far before the assert
+		asserts.WriteString(defs.String())
+		defs.Reset()
+		asserts.WriteString("(assert " + body + ")\n")
+	}
+	return decls.String() + asserts.String() + "(check-sat)\n"
+}
+
+var fallbackKinds = []string{"z3-new", "cvc5"}
+
+// fallbackCheck re-asks an inconclusive query to other solvers (one-shot processes).
+func fallbackCheck(pc []*Term, extra *Term, timeoutMs int, primary string) Res {
+	q := standaloneQuery(pc, extra, nil)
+	if dir := os.Getenv("VERIF_LOGUNKNOWN"); dir != "" {
+		os.MkdirAll(dir, 0o755)
+		os.WriteFile(fmt.Sprintf("%s/q%d.smt2", dir, time.Now().UnixNano()), []byte(q), 0o644)
+	}
+	for _, k := range fallbackKinds {
+		if k == primary {
+			continue
+		}
+		bin, args := solverArgs(k, timeoutMs)
+		if k == "cvc5" {
+			args = []string{"--lang=smt2", fmt.Sprintf("--tlimit=%d", timeoutMs)}
+			q = "(set-logic ALL)\n" + q
+		} else {
+			args = []string{"-in", fmt.Sprintf("-T:%d", timeoutMs/1000+1)}
+		}
+		cmd := exec.Command(bin, args...)
+		cmd.Stdin = strings.NewReader(q)
+		out, _ := cmd.Output()
+		txt := strings.TrimSpace(string(out))
+		if strings.Contains(txt, "(error") {
+			continue
+		}
+		if strings.HasPrefix(txt, "unsat") {
+			return Unsat
+		}
+		if strings.HasPrefix(txt, "sat") {
+			return Sat
+		}
+	}
+	return Unknown
 }
